@@ -93,7 +93,7 @@ def _sweep_shard(ctx: Ctx, shard: int, nshards: int, lengths: list, b1_values: l
                 for b1 in b1_values:
                     for n in lengths:
                         for ti, tail in enumerate(tails):
-                            for last in (b"e", b"x"):
+                            for last in (b"e", b"x", None):     # None: last byte as the body has it (e.g. bare prefix)
                                 for pfx in (0, 1):
                                     if pfx and not (b0 == prefix[0] and b1 == prefix[1]):
                                         continue
@@ -109,7 +109,9 @@ def _sweep_shard(ctx: Ctx, shard: int, nshards: int, lengths: list, b1_values: l
                                         body[8:12] = tail
                                     elif ti:
                                         continue
-                                    if n >= 3:
+                                    if last is None:
+                                        pass
+                                    elif n >= 3:
                                         body[-1] = last[0]
                                     elif last == b"x":
                                         continue
@@ -118,7 +120,7 @@ def _sweep_shard(ctx: Ctx, shard: int, nshards: int, lengths: list, b1_values: l
                                         exit_node.overlay.settings.peer_flags = fs | {RELAY}
                                         got = sock.is_allowed(d)
                                         want = ref_allowed(d, fs, prefix)
-                                        key = ((((((b0 << 8 | b1) * 80 + n) * 4 + ti) * 2 + (last == b"e")) * 2 + pfx) * 4
+                                        key = ((((((b0 << 8 | b1) * 80 + n) * 4 + ti) * 3 + (b"e", b"x", None).index(last)) * 2 + pfx) * 4
                                                + (EXIT_BT in fs) * 2 + (EXIT_IPV8 in fs)) | (1 << 62)
                                         ctx.case(key, (not want) or boundary(d),
                                                  cls="sweep:" + ("allow" if want else "deny"),
@@ -157,12 +159,14 @@ def make_payload(kind: str, n: int, prefix: bytes, salt: int) -> bytes:
         return b"\x00\x03" + b"\xee" * 20 + b"\xff" * max(1, n - 22)
     if kind == "short_ipv8":
         return b"\x00\x02" + b"\xee" * 20
+    if kind == "bare_tunnel":
+        return prefix[:22] if n >= 22 else prefix[:max(2, n)]
     if kind == "junk":
         return b"\xff" + fill[:max(0, n - 2)] + b"\xfe"
     raise AssertionError(kind)
 
 
-KINDS = ["dht", "utp", "utp_badver", "tracker", "ipv8_other", "ipv8_tunnel", "ipv8_v3", "short_ipv8", "junk"]
+KINDS = ["dht", "utp", "utp_badver", "tracker", "ipv8_other", "ipv8_tunnel", "ipv8_v3", "short_ipv8", "bare_tunnel", "junk"]
 DESTS = [["5.5.5.5", 5555], ["2001:db8::5", 5555], ["example.com", 80], ["unknown.invalid", 80], ["0.0.0.0", 0]]
 
 
